@@ -83,8 +83,9 @@ func (l *Log) Count(prefix string) int {
 
 // SubStep is what a scripted subscription does next.
 type SubStep struct {
-	Kind string // "emit", "end", "error", "panic", "block"
+	Kind string // "emit", "end", "error", "panic"
 	Val  int
+	Raw  string // when non-empty: raw JSON used as the field value instead of Val
 }
 
 // SubSource yields the next step of a subscription; called once per response-function call.
@@ -98,7 +99,8 @@ type Schema struct {
 	// Hook, when set, is invoked at the start of every resolver (harness yield points, faults).
 	Hook func(ctx context.Context, object, field string, args map[string]any)
 	// Defer: when >0 a query response function yields that many extra incremental payloads.
-	Incremental []string // raw JSON data for incremental payloads (each delivered with hasNext bookkeeping)
+	Incremental []string    // raw JSON data for incremental payloads (each delivered with hasNext bookkeeping)
+	IncHook     func(k int) // called before the k-th incremental payload is produced
 
 	schema *ast.Schema
 }
@@ -282,6 +284,7 @@ func (s *Schema) Exec(ctx context.Context) graphql.ResponseHandler {
 			call++
 			if call == 1 {
 				r := s.execRoot(ctx, obj)
+				s.Log.Add("payload:%s", r.Data)
 				if len(s.Incremental) > 0 {
 					r.HasNext = new(bool)
 					*r.HasNext = true
@@ -290,6 +293,10 @@ func (s *Schema) Exec(ctx context.Context) graphql.ResponseHandler {
 			}
 			k := call - 2
 			if k < len(s.Incremental) {
+				if s.IncHook != nil {
+					s.IncHook(k)
+				}
+				s.Log.Add("payload:%s", s.Incremental[k])
 				hn := k+1 < len(s.Incremental)
 				return &graphql.Response{Data: []byte(s.Incremental[k]), Path: ast.Path{ast.PathName("a")}, HasNext: &hn}
 			}
@@ -313,7 +320,12 @@ func (s *Schema) Exec(ctx context.Context) graphql.ResponseHandler {
 			switch step.Kind {
 			case "emit":
 				kb, _ := json.Marshal(f.Alias)
-				return &graphql.Response{Data: []byte(fmt.Sprintf("{%s:%d}", kb, step.Val))}
+				d := fmt.Sprintf("{%s:%d}", kb, step.Val)
+				if step.Raw != "" {
+					d = fmt.Sprintf("{%s:%s}", kb, step.Raw)
+				}
+				s.Log.Add("payload:%s", d)
+				return &graphql.Response{Data: []byte(d)}
 			case "error":
 				graphql.AddError(ctx, fmt.Errorf("subscription error"))
 				return &graphql.Response{Data: []byte("null")}
